@@ -11,7 +11,8 @@ case "$P" in
   -R:*) (cd "$WT" && git revert --no-commit "${P#-R:}" >/dev/null) ;;
   *) git -C "$WT" apply "$P" 2>/dev/null || git -C "$WT" apply --3way "$P" ;;
 esac
-cd /verif
+H="${VERIF_RUN_HOME:-/verif}"   # a copy of /verif to run from (so that /verif can be edited meanwhile)
+cd "$H"
 set +e
-VERIF_REPO="$WT" VERIF_HOME=/verif VERIF_EVIDENCE_DIR="$WT/.evidence" ./bin/vcheck run "$PROP" --tier "$TIER"
+VERIF_REPO="$WT" VERIF_HOME="$H" VERIF_EVIDENCE_DIR="$WT/.evidence" ./bin/vcheck run "$PROP" --tier "$TIER"
 echo "exit=$?"
